@@ -151,6 +151,9 @@ def gen_cases(kind, n, salt):
             if r.random() < 0.3:
                 a, b = {"items": a, "n": 1}, {"items": b, "n": 1}
             cases.append(("json", a, b, r.choice(docs.ALL_OPTS[:6])))
+    elif kind == "mixedkeys":
+        for i in range(n):
+            cases.append(("mixedkeys", i, None, r.choice(docs.ALL_OPTS)))
     elif kind == "multiline":
         # strings spanning several lines edited next to single-line string edits, with more (indented) content after
         # them: formatter state carried from one string to the next, or from one call to the next, would show
@@ -202,6 +205,19 @@ def gen_cases(kind, n, salt):
     return cases
 
 
+def msetdup_collide(case, salt):
+    """For a pair of multisets with duplicates: can two EQUAL elements of the first collection both be paired by the matcher?
+    (some element occurs at least twice among the elements not shared with the second collection, and the second has at
+    least two unshared elements).  That is the shape in which the value-keyed matcher result collapses entries - the
+    known findings F17 / F20; every other duplicate shape is handled correctly by the pinned code (4 500 cases, 3 salts)."""
+    import collections
+    a, b = build_pair(case, salt)
+    ca = collections.Counter(repr(x) for x in a)
+    cb = collections.Counter(repr(x) for x in b)
+    ra, rb = ca - cb, cb - ca
+    return max(ra.values(), default=0) >= 2 and sum(rb.values()) >= 2
+
+
 def build_pair(case, salt):
     kind, a, b, opts = case[:4]
     if kind == "json":
@@ -215,6 +231,10 @@ def build_pair(case, salt):
     if kind == "loaded":
         r = rng("loaded", salt, a)
         return docs.random_loaded_pair(r, opts)
+    if kind == "mixedkeys":
+        r = rng("mixedkeys", salt, a)
+        da, db = docs.random_mixedkeys_docs(r)
+        return docs.build(da, opts), docs.build(db, opts)
     if kind == "pyobj":
         r = rng("pyobj", salt, a)
         return docs.random_pyobj_pair(r, opts)
